@@ -475,6 +475,30 @@ def leg_warnings(ns, res, spec):
         if err is not None or got_sep != expect_sep:
             res.violation('py:separator-warning-not-iff-with-header', '[py] CSV %r with header, %r, simple output with delimiter %r: warnings %r (error %r), separator warning expected: %s' % (text, qtext, out_delim, warnings, err, expect_sep),
                           {'leg': 'warnings-header', 'text': text, 'query_text': qtext, 'out_delim': out_delim})
+    # colorized output (what --color asks for): the colour escape sequences wrapped around the fields are not field content - a delimiter that occurs
+    # in them (';', 'm', '[', a digit) must not be reported, one inside a field must
+    for rep in range(spec['n'] * 6):
+        w = rng.choice([2, 5, 9, 10, 12, 17])
+        cells = rng.choice([['x', 'yy', 'z1'], ['x', 'p;q', 'a b', 'm', '[3', '7']])
+        rows = [[rng.choice(cells) for _ in range(w)] for _ in range(rng.randrange(1, 4))]
+        out_delim = rng.choice([';', ';', 'm', '[', '3', '\t', ' ', '0;'])
+        out_policy = 'whitespace' if out_delim == ' ' else 'simple'
+        colorize = rep % 4 != 3
+        warnings = []
+        err = None
+        try:
+            wr = ns.csv.CSVWriter(io.StringIO(), False, None, out_delim, out_policy, colorize_output=colorize)
+            ns.rbql.query('select *', ns.engine.TableIterator([list(r) for r in rows]), wr, warnings)
+        except Exception as e:
+            err = util.error_class(e)
+        res.evaluations += 1
+        res.count('colorized_output_runs' if colorize else 'plain_wide_output_runs')
+        res.nontrivial('color', repr(rows), out_delim, colorize)
+        expect_sep = any(out_delim in c for r in rows for c in r)
+        got_sep = 'sep' in util.warning_kinds(warnings)
+        if err is not None or got_sep != expect_sep or len(warnings) > (1 if expect_sep else 0):
+            res.violation('py:separator-warning-not-iff-colorized' if colorize else 'py:separator-warning-not-iff-wide', '[py] %d-column table %r, %s output with delimiter %r, colorize_output=%s: warnings %r (error %r), separator warning expected: %s' % (
+                w, rows, out_policy, out_delim, colorize, warnings, err, expect_sep), {'leg': 'warnings-color', 'rows': rows, 'out_delim': out_delim, 'colorize': colorize})
     # list front-end: TableIterator's field-count warning
     for _ in range(spec['n'] * 4):
         A = [['x'] * rng.choice([1, 2, 2, 3]) for _ in range(rng.randrange(1, 7))]
@@ -511,9 +535,9 @@ def run_shard(spec, res):
 
 def summarize(tier, seed, m):
     return {
-        'rule': 'fault enumeration: one (and two: the first must be named) poisoned record at every position k of tables of 1..6 records x 13 clause placements (SELECT, WHERE, ORDER BY key, GROUP BY key, aggregate argument, aggregate over a failing expression, UPDATE right-hand side, UPDATE target beyond the record, JOIN key on A, JOIN key on B, missing field under .upper() in SELECT / WHERE, UNNEST list) with poison kinds non-numeric cell under int() / numeric aggregate, missing field, missing join key; %d statically detectable mistakes x 6 spelling / header variants (parsing error, zero records written); an invalid byte sequence at every offset of a UTF-8 file x 7 sequences x 3 chunk sizes, header / column-list inconsistencies, defective quoted_rfc quoting (IO-handling error); every subset of the anomalies {ragged, malformed quote, separator in simple output, BOM} (+ None from short records) on header-less full-scan queries with the exact iff and the cited record numbers. the poisoned record at every position of 2-6 record tables delivered by front-ends whose own numbering differs from the record number (CSV with header line, comment lines and multi-line cells through query_csv and the command line; a dataframe with a non-default index; a sqlite table with rowid gaps) under six query shapes: query-execution error naming record k; distinct_nontrivial counts enumerated scenarios.' % len(PARSING_QUERIES),
+        'rule': 'fault enumeration: one (and two: the first must be named) poisoned record at every position k of tables of 1..6 records x 13 clause placements (SELECT, WHERE, ORDER BY key, GROUP BY key, aggregate argument, aggregate over a failing expression, UPDATE right-hand side, UPDATE target beyond the record, JOIN key on A, JOIN key on B, missing field under .upper() in SELECT / WHERE, UNNEST list) with poison kinds non-numeric cell under int() / numeric aggregate, missing field, missing join key; %d statically detectable mistakes x 6 spelling / header variants (parsing error, zero records written); an invalid byte sequence at every offset of a UTF-8 file x 7 sequences x 3 chunk sizes, header / column-list inconsistencies, defective quoted_rfc quoting (IO-handling error); every subset of the anomalies {ragged, malformed quote, separator in simple output, BOM} (+ None from short records) on header-less full-scan queries with the exact iff and the cited record numbers. the poisoned record at every position of 2-6 record tables delivered by front-ends whose own numbering differs from the record number (CSV with header line, comment lines and multi-line cells through query_csv and the command line; a dataframe with a non-default index; a sqlite table with rowid gaps) under six query shapes: query-execution error naming record k; colorized simple / whitespace output (2-17 columns, delimiters that occur inside the colour escape sequences) with the separator warning iff a FIELD holds the delimiter; distinct_nontrivial counts enumerated scenarios.' % len(PARSING_QUERIES),
         'exhaustive': True,
-        'required': ['frontend_poison_runs:query_csv', 'frontend_poison_runs:cli', 'frontend_poison_runs:pandas', 'frontend_poison_runs:sqlite', 'header_separator_runs', 'poison_runs', 'parsing_runs', 'bad_byte_runs', 'inconsistent_input_runs', 'warning_runs', 'list_warning_runs', 'field_name_checks', 'no_write_before_parsing_error_checks', 'js_cases',
+        'required': ['colorized_output_runs', 'frontend_poison_runs:query_csv', 'frontend_poison_runs:cli', 'frontend_poison_runs:pandas', 'frontend_poison_runs:sqlite', 'header_separator_runs', 'poison_runs', 'parsing_runs', 'bad_byte_runs', 'inconsistent_input_runs', 'warning_runs', 'list_warning_runs', 'field_name_checks', 'no_write_before_parsing_error_checks', 'js_cases',
                      'warning_iff:bom:present', 'warning_iff:fields:present', 'warning_iff:none:present', 'warning_iff:quote:present', 'warning_iff:sep:present'] + ['poison:' + c for c in CLAUSES],
         'assumptions': ['poison scenarios carry no TOP/LIMIT bound (see C02: the record behind the bound may or may not be evaluated)', 'error texts are never compared: class + record number (tolerant pattern) + field name'],
     }
